@@ -406,12 +406,29 @@ def make_const(kind, value):
         return np.int32(int(value))
     if kind == "npfloat32":
         return np.float32(value)
+    if kind == "npuint8":
+        return np.uint8(int(value))
     if kind == "arr0d":
         return np.array(float(value))
     if kind == "Constant":
         from optyx import Constant
         return Constant(value)
     raise ValueError(kind)
+
+
+def _typed_array(data):
+    """the user's data array in one of the dtypes users have (chosen deterministically from the data): float64, or -
+    when every entry is representable - uint8 / int32 / float32 (image-like or count data)"""
+    a = np.array(data, dtype=float)
+    whole = bool(np.all(a == np.round(a)))
+    pick = int(np.sum(np.abs(a)) * 4) % 4
+    if whole and np.all(a >= 0) and np.all(a <= 255) and pick == 1:
+        return a.astype(np.uint8)
+    if whole and pick == 2:
+        return a.astype(np.int32)
+    if pick == 3 and np.all(a.astype(np.float32).astype(float) == a):
+        return a.astype(np.float32)
+    return a
 
 
 class BuildAlg:
@@ -623,10 +640,8 @@ class BuildAlg:
             return self.ev(operand[1])
         if k == "num":
             return make_const(operand[1], operand[2])
-        if k == "arr":
-            return np.array(operand[1], dtype=float)
-        if k == "arr2":
-            return np.array(operand[1], dtype=float)
+        if k in ("arr", "arr2"):
+            return _typed_array(operand[1])
         if k in ("list", "list2"):
             return [list(x) if isinstance(x, list) else x for x in operand[1]]
         raise ValueError(k)
